@@ -276,6 +276,9 @@ impl Prop for Totality {
         m.add("probe_unlimited_budget", (case.t == u64::MAX) as u64);
         let (c1, md) = (cfg.clone(), model.clone());
         let fault = case.fail_build;
+        // a caller may solve again on the same thread: nothing a call leaves behind (pools,
+        // worker registrations, thread-locals) may make the next one fail or differ
+        let again = !fault && case.sampling_seed % 4 == 0;
         let sim = simulate(&case.sched, move || -> Result<(SolveOut, Option<SolveOut>), String> {
             let game = md.build().map_err(|e| format!("{e:?}"))?;
             let a = observed_solve(&game, &c1);
@@ -284,6 +287,8 @@ impl Prop for Totality {
                 let mut c2 = c1.clone();
                 c2.fail_build = false;
                 Some(observed_solve(&game, &c2))
+            } else if again {
+                Some(observed_solve(&game, &c1))
             } else {
                 None
             };
@@ -389,16 +394,17 @@ impl Prop for Totality {
         }
         if let Some(b) = b {
             b.hash_into(&mut h);
-            m.add("probe_retry_after_fault", 1);
+            m.add(if fault { "probe_retry_after_fault" } else { "probe_second_call_on_the_same_thread" }, 1);
+            let what = if fault { "retry after an injected pool-build failure" } else { "a second call on the same thread" };
             // recovery: the retry must be what a fault-free call gives
             let (want2, _) = expected_kind(case.k, case.cores, false);
             match &b.result {
                 Ok(s) => {
                     if want2 != "ok" {
-                        return finish(m, h, viol("wrong-result-kind", sig, format!("retry after fault returned Ok, expected {want2}")), traces);
+                        return finish(m, h, viol("wrong-result-kind", sig, format!("{what} returned Ok, expected {want2}")), traces);
                     }
                     if let Err(e) = well_formed(s) {
-                        return finish(m, h, viol("malformed-result", sig, format!("retry after fault: {e}")), traces);
+                        return finish(m, h, viol("malformed-result", sig, format!("{what}: {e}")), traces);
                     }
                     // compare with a single-threaded run (tolerances + conditioning as in C06/C07)
                     let mut c1 = cfg.clone();
@@ -414,14 +420,14 @@ impl Prop for Totality {
                         if (d > PROB_TOL || db > bt) && case.thresh.is_nan() == false {
                             let ill = std::panic::catch_unwind(std::panic::AssertUnwindSafe(|| cond::ill_conditioned(&case.game, &game, &c1, bs, PROB_TOL))).unwrap_or(Some("panicked"));
                             if ill.is_none() && edge == "none" {
-                                return finish(m, h, viol("retry-after-fault-differs", sig, format!("retry after an injected pool-build failure differs from a fault-free run by {d:.3e}")), traces);
+                                return finish(m, h, viol(if fault { "retry-after-fault-differs" } else { "second-call-differs" }, sig, format!("{what} differs from a fault-free first call by {d:.3e}")), traces);
                             }
                         }
                     }
                 }
                 Err(e) => {
                     if want2 == "ok" {
-                        return finish(m, h, viol("no-progress-after-fault", sig, format!("retry after the fault was cleared returned {e:?}")), traces);
+                        return finish(m, h, viol(if fault { "no-progress-after-fault" } else { "second-call-failed" }, sig, format!("{what} returned {e:?}")), traces);
                     }
                 }
             }
